@@ -71,34 +71,47 @@ theorem wake_result_fields (c : Cfg) (fn wf : Nat) (v : Option Val) (hl : c.st.l
   · rw [hst] at he; cases he
   · exact (h3 (by simp [SObj.label, terminal, allowed])).2.1.trans hcl
 
+/-- the body of `Process.step` on a RUNNING state of a process that is not paused logs the activation -/
+theorem stepBodyK_activates (P : Prog) (m : Nat) (d : Cfg) (fn : Nat) (args : List Val)
+    (hst : d.st = .running fn args []) (hpa : d.paused = none) :
+    ∃ extra, (stepBodyK P (loopHead P m) d).trace =
+      extra ++ { fn := fn, args := args, kw := [], paused := false } :: d.trace := by
+  unfold stepBodyK
+  dsimp only
+  split
+  · rename_i fn' h; have h' : d.st = .created fn' := h; rw [hst] at h'; cases h'
+  · rename_i fn' args' kw' h
+    have h' : d.st = .running fn' args' kw' := h
+    rw [hst] at h'; cases h'
+    have hp : d.paused.isSome = false := by rw [hpa]; rfl
+    rw [hp]
+    split
+    · obtain ⟨x, hx⟩ := (loopHead_trext P m (finishUser { { d with stepping := true } with
+          trace := { fn := fn, args := args, kw := [], paused := false } :: d.trace } (P fn args [] d.ctx).out)).ext
+      exact ⟨x, by rw [hx, finishUser_trace]⟩
+    · exact ⟨[], rfl⟩
+  · rename_i fn' wf' wk' aw' h; have h' : d.st = .waiting fn' wf' wk' aw' := h; rw [hst] at h'; cases h'
+  · rename_i h1 h2 h3; exact absurd hst (h2 fn args [])
+
 /-- a RUNNING state that is reached inside the loop of a playing process is activated by the next iteration -/
 theorem loopHead_activates (P : Prog) (m : Nat) (d : Cfg) (fn : Nat) (args : List Val)
     (hst : d.st = .running fn args []) (hncr : ∀ e, d.pc ≠ .crashed e) (hcl : d.closed = false) (hpa : d.paused = none) :
     ∃ extra, (loopHead P (m + 1) d).trace = extra ++ { fn := fn, args := args, kw := [], paused := false } :: d.trace := by
   have hlive : terminal d.st.label = false := by rw [hst]; simp [SObj.label, terminal, allowed]
-  have hbody : ∃ extra, (stepBodyK P (loopHead P m) d).trace =
-      extra ++ { fn := fn, args := args, kw := [], paused := false } :: d.trace := by
-    unfold stepBodyK
-    dsimp only
-    split
-    · rename_i fn' h; have h' : d.st = .created fn' := h; rw [hst] at h'; cases h'
-    · rename_i fn' args' kw' h
-      have h' : d.st = .running fn' args' kw' := h
-      rw [hst] at h'; cases h'
-      have hp : d.paused.isSome = false := by rw [hpa]; rfl
-      rw [hp]
-      split
-      · obtain ⟨x, hx⟩ := (loopHead_trext P m (finishUser { { d with stepping := true } with
-            trace := { fn := fn, args := args, kw := [], paused := false } :: d.trace } (P fn args [] d.ctx).out)).ext
-        exact ⟨x, by rw [hx, finishUser_trace]⟩
-      · exact ⟨[], rfl⟩
-    · rename_i fn' wf' wk' aw' h; have h' : d.st = .waiting fn' wf' wk' aw' := h; rw [hst] at h'; cases h'
-    · rename_i h1 h2 h3; exact absurd hst (h2 fn args [])
   unfold loopHead
   split
   · rename_i e he; exact absurd he (hncr e)
   · simp only [hlive, hcl, Bool.false_eq_true, if_false, hpa]
-    exact hbody
+    exact stepBodyK_activates P m d fn args hst hpa
+
+/-- the loop head of a live process that is paused on an unreleased pause future suspends there -/
+theorem loopHead_blocked (P : Prog) (m : Nat) (d : Cfg) (pf : Nat) (hncr : ∀ e, d.pc ≠ .crashed e)
+    (hlive : terminal d.st.label = false) (hcl : d.closed = false) (hpa : d.paused = some pf)
+    (hpf : d.pfs[pf]? = some false) : loopHead P (m + 1) d = { d with pc := .awaitPaused pf } := by
+  unfold loopHead
+  split
+  · rename_i e he; exact absurd he (hncr e)
+  · simp only [hlive, hcl, Bool.false_eq_true, if_false, hpa, hpf, if_true]
 
 /-- the body of `Process.step` on a WAITING state whose future completed with `v`, then the rest of the loop -/
 theorem stepBodyK_waiting_delivers (P : Prog) (m : Nat) (c : Cfg) (fn wf : Nat) (wk : Option WF) (aw : List (Nat × Nat))
@@ -159,16 +172,10 @@ theorem wake_interrupted_plain (c : Cfg) (fn wf : Nat) (wk : Option WF) (aw : Li
       k i (by simp [SObj.label, terminal, allowed]) hi hc
 
 /-- **delivery, one configuration**: see the header of this file -/
-theorem tick_delivers (P : Prog) (c : Cfg) (fn wf : Nat) (wk : Option WF) (aw : List (Nat × Nat)) (v : Option Val)
+theorem tick_delivers_plain (P : Prog) (c : Cfg) (fn wf : Nat) (wk : Option WF) (aw : List (Nat × Nat)) (v : Option Val)
     (h : Coh c) (hst : c.st = .waiting fn wf wk aw) (hh : Holds c wf wk v)
-    (hpa : c.paused = none) (hpi : c.pausing = none) (hk : c.killing = none) :
+    (hpa : c.paused = none) (hplain : Plain c) :
     ∃ extra, (tickStepper P c).trace = extra ++ { fn := fn, args := argsOf v, kw := [], paused := false } :: c.trace := by
-  have hplain : Plain c := by
-    intro i hi
-    rcases h.rob.alias i hi with g | g | g
-    · exact g
-    · rw [hpi] at g; cases g
-    · rw [hk] at g; cases g
   have hlab : c.st.label = .waiting := by rw [hst]; rfl
   have hlive : terminal c.st.label = false := by rw [hlab]; decide
   have hcl : c.closed = false := not_closed_of_live h.inv hlive
@@ -250,5 +257,19 @@ theorem tick_delivers (P : Prog) (c : Cfg) (fn wf : Nat) (wk : Option WF) (aw : 
         simp only [hpc, hwk, hst]
         rw [hwake]
         exact hd
+
+
+theorem plain_of_no_request (c : Cfg) (h : Rob c) (hpi : c.pausing = none) (hk : c.killing = none) : Plain c := by
+  intro i hi
+  rcases h.alias i hi with g | g | g
+  · exact g
+  · rw [hpi] at g; cases g
+  · rw [hk] at g; cases g
+
+theorem tick_delivers (P : Prog) (c : Cfg) (fn wf : Nat) (wk : Option WF) (aw : List (Nat × Nat)) (v : Option Val)
+    (h : Coh c) (hst : c.st = .waiting fn wf wk aw) (hh : Holds c wf wk v)
+    (hpa : c.paused = none) (hpi : c.pausing = none) (hk : c.killing = none) :
+    ∃ extra, (tickStepper P c).trace = extra ++ { fn := fn, args := argsOf v, kw := [], paused := false } :: c.trace :=
+  tick_delivers_plain P c fn wf wk aw v h hst hh hpa (plain_of_no_request c h.rob hpi hk)
 
 end PMF.H6
